@@ -436,7 +436,7 @@ func emitObjMget(o *Out, r *RNG, card bool) {
 	}
 	root.Add(E("DAV:", "prop", E("DAV:", "getetag"), data))
 	for _, h := range hrefs {
-		root.Add(E("DAV:", "href").T((&url.URL{Path: h}).String()))
+		root.Add(E("DAV:", "href").T(hrefSpelling(h)))
 	}
 	doc := randStyle(r).doc(root)
 	res := guard(func() string {
@@ -491,7 +491,7 @@ func emitObjMget(o *Out, r *RNG, card bool) {
 // the client reads conformant multi-status documents from the independent writer: properties split over several
 // propstat elements, unknown extra properties under 200 and 404, any prefixes and white space
 func splitProps(r *RNG, href string, props []*wEl) *wEl {
-	resp := E("DAV:", "response", E("DAV:", "href").T((&url.URL{Path: href}).String()))
+	resp := E("DAV:", "response", E("DAV:", "href").T(hrefSpelling(href)))
 	var a, b []*wEl
 	for _, p := range props {
 		if r.Chance(35) {
@@ -621,7 +621,7 @@ func emitObjRead(o *Out, r *RNG) {
 			rootCal.Add(splitProps(r, cp, append(common(), E(nsCal, "calendar-data").T(canonCal[cp]))))
 			rootCard.Add(splitProps(r, ap, append(common(), E(nsCard, "address-data").T(canonCard[ap]))))
 			if r.Chance(30) {
-				rootSync.Add(E("DAV:", "response", E("DAV:", "href").T((&url.URL{Path: ap}).String()), E("DAV:", "status").T("HTTP/1.1 404 Not Found")))
+				rootSync.Add(E("DAV:", "response", E("DAV:", "href").T(hrefSpelling(ap)), E("DAV:", "status").T("HTTP/1.1 404 Not Found")))
 				deleted = append(deleted, hx(ap))
 			} else {
 				inSync = append(inSync, sxCardObj(ap, mod, etag, true))
